@@ -128,6 +128,19 @@ class ORMatic:
         for edge in self.class_dependency_graph.inheritance_relations:
             self.inheritance_graph.add_edge(edge.source.index, edge.target.index, None)
 
+        # A class whose direct base is not part of the diagram still gets the first class of its MRO that is
+        # part of the diagram as parent table, so it has to be ordered after that class as well.
+        mapped = self.class_dependency_graph._cls_wrapped_cls_map
+        for wrapped_class in self.class_dependency_graph.wrapped_classes:
+            parent = next(
+                (mapped[base] for base in wrapped_class.clazz.__mro__[1:] if base in mapped),
+                None,
+            )
+            if parent is not None and not self.inheritance_graph.has_edge(
+                parent.index, wrapped_class.index
+            ):
+                self.inheritance_graph.add_edge(parent.index, wrapped_class.index, None)
+
     def _add_alternative_mappings_to_class_diagram(self):
         """
         Add alternative mappings to the class diagram.
